@@ -102,6 +102,9 @@ func searchCase(c *fw.Ctx, r *rand.Rand, i int, budget float64, maxDepth int) (r
 	if root.tag == "stalemate-resource" && r.Intn(4) != 0 {
 		depth = 1 + r.Intn(3) // the stalemate must be met at the horizon, where quiescence has to recognise it
 	}
+	if i%19 == 7 {
+		depth = 0 // the root itself is the horizon
+	}
 	return root, cfg, depth, true
 }
 
@@ -197,8 +200,123 @@ func moveListCase(c *fw.Ctx, r *rand.Rand) {
 	}
 }
 
+// shuttle finds, from p, a pair of quiet moves (one per side) that can be undone: m1, m2, back1, back2 return to p.
+func shuttle(r *rand.Rand, p ref.Pos) ([]ref.Move, bool) {
+	g := ref.NewGame(p)
+	quiet := func() (ref.Move, bool) {
+		ms := g.Cur.LegalMoves()
+		for _, i := range r.Perm(len(ms)) {
+			if m := ms[i]; m.Capture == 0 && m.Piece != ref.Pawn && m.Kind == ref.KNormal {
+				return m, true
+			}
+		}
+		return ref.Move{}, false
+	}
+	reverse := func(m ref.Move) (ref.Move, bool) {
+		for _, x := range g.Cur.LegalMoves() {
+			if x.From == m.To && x.To == m.From && x.Capture == 0 {
+				return x, true
+			}
+		}
+		return ref.Move{}, false
+	}
+	m1, ok := quiet()
+	if !ok {
+		return nil, false
+	}
+	g.Push(m1)
+	m2, ok := quiet()
+	if !ok {
+		return nil, false
+	}
+	g.Push(m2)
+	b1, ok := reverse(m1)
+	if !ok {
+		return nil, false
+	}
+	g.Push(b1)
+	b2, ok := reverse(m2)
+	if !ok {
+		return nil, false
+	}
+	g.Push(b2)
+	if g.Cur.Key() != p.Key() {
+		return nil, false
+	}
+	return []ref.Move{m1, m2, b1, b2}, true
+}
+
+// drawnArrival: a node that is a draw on arrival (third occurrence, given the game's history) counts as zero
+// whatever a table holds for that position. The table is given one truthful entry: the exact value the position
+// has as a fresh root at exactly the remaining depth, as an earlier search of the same game would have left it.
+func drawnArrival(c *fw.Ctx, r *rand.Rand, idx int) {
+	ctx := context.Background()
+	var x ref.Pos
+	if idx%2 == 0 {
+		x = smallMaterial(r)
+	} else {
+		x = gen.TacticOK(r, 8+r.Intn(2))
+	}
+	x.Half = r.Intn(20)
+	cyc, ok := shuttle(r, x)
+	if !ok {
+		return
+	}
+	// X, cycle (X again), then three moves of the cycle: the side to move can now bring X about a third time
+	moves := append(append([]ref.Move{}, cyc...), cyc[:3]...)
+	h := gen.Hist{Start: x, Moves: moves}
+	cfgs := []searchCfg{searchCfgs[0], searchCfgs[1], searchCfgs[9]}
+	cfg := cfgs[r.Intn(len(cfgs))]
+	depth := 2 + r.Intn(2)
+	s, rcfg, anchor := cfg.mk()
+	what := fmt.Sprintf("config %s depth %d %s: the position after %v has occurred twice", cfg.name, depth, histDesc(h), cyc[3])
+	// the truthful entry for X at the remaining depth it has below the root
+	xb, ok := boardOf(gen.Hist{Start: x})
+	if !ok {
+		return
+	}
+	xv, _, _, err := abValue(s, xb, depth-1)
+	if err != nil {
+		return
+	}
+	if xv.Type == eval.Heuristic && xv.Pawns == 0 {
+		c.Count("drawn_arrival_value_zero_anyway", 1)
+	}
+	tt := search.NewTranspositionTable(ctx, 1<<16)
+	tt.Write(xb.Hash(), search.ExactBound, xb.Ply(), depth-1, xv, board.Move{})
+	// reference value with the game's history, no table
+	rb, _ := boardOf(h)
+	anchor(rb)
+	rs := &refsearch.Searcher{Cfg: rcfg, Budget: 200000}
+	v := rs.Value(rb, depth)
+	if rs.Over {
+		c.Inconclusive("reference search over budget: %s", what)
+		return
+	}
+	b, _ := boardOf(h)
+	sctx := fullWindow()
+	sctx.TT = tt
+	_, score, _, err := s.Search(budgetCtx(), sctx, b, depth)
+	if err != nil {
+		return
+	}
+	c.Eval(1)
+	c.Count("drawn_arrival_searches", 1)
+	c.Distinct(what)
+	got, okScore := refsearch.FromEval(score)
+	if !okScore || !got.Eq(v) {
+		c.Violate("search:drawn-arrival", "search returns %v, the value with the repetition counted as zero is %v (the table held the exact entry %v for the repeated position at depth %d): %s", score, v, xv, depth-1, what)
+	}
+}
+
 func runC03(c *fw.Ctx, cs fw.Case) {
 	r := cs.Rand()
+	if cs.Kind == "drawnarrival" {
+		for i := 0; i < cs.N; i++ {
+			drawnArrival(c, r, i)
+		}
+		return
+	}
 	if cs.Kind == "movelist" {
 		for i := 0; i < cs.N; i++ {
 			moveListCase(c, r)
@@ -305,7 +423,7 @@ func runC03(c *fw.Ctx, cs fw.Case) {
 			c.Violate("search:pv-length", "PV has %d moves at depth %d: %s", len(pv), depth, what)
 		}
 		if len(pv) == 0 {
-			if !moveless {
+			if !moveless && depth > 0 { // (a depth-0 search evaluates the root and has no move to report)
 				c.Violate("search:pv-empty", "empty PV although the root has a legal move: %s", what)
 			}
 			continue
@@ -603,16 +721,17 @@ func init() {
 		ID:          "C03",
 		Level:       "exploration",
 		Technique:   "runtime differential oracle: full-window alpha-beta vs an independent windowless negamax with its own score arithmetic, over generated positions, histories and search configurations; PV replayed on the rules oracle; board snapshot before/after",
-		Rule:        "one evaluation = one full-window search (configuration drawn from 10 recipes: full / plausible-move / no-under-promotion exploration x static / quiescence / one-ply-if-checked leaves with Material, hash, TUROCHAMP, BERNSTEIN, SARGON evaluators) on a generated root with history (mating nets, sparse endings, shuffled histories with repetitions looming, clocks 94-99, middlegames, synthetic, promotion races, mate and stalemate roots), depth chosen by branching (1-7) so that the reference stays within its node budget; compared: score, PV legality/length/first-move value, board hand-back; distinct = distinct (configuration, depth, history)",
+		Rule:        "one evaluation = one full-window search (configuration drawn from 10 recipes: full / plausible-move / no-under-promotion exploration x static / quiescence / one-ply-if-checked leaves with Material, hash, TUROCHAMP, BERNSTEIN, SARGON evaluators) on a generated root with history (mating nets, sparse endings, shuffled histories with repetitions looming, clocks 94-99, middlegames, synthetic, promotion races, mate and stalemate roots), depth chosen by branching (1-7) so that the reference stays within its node budget; compared: score, PV legality/length/first-move value, board hand-back; drawnarrival: a root from which the side to move can repeat a position for the third time, searched with a table holding the truthful exact entry of that position at the remaining depth: the repetition still counts as zero; distinct = distinct (configuration, depth, history)",
 		Assumptions: []string{"the tree (legal moves, draw flags) is the board's own: C01/C05 monitor those independently", "explorations used select at least one legal move whenever one exists (C20)", "a mate delivered exactly at the horizon is a leaf (both searches evaluate it statically), mirrored by the reference"},
 		Setup:       validateOracle,
 		Timeout:     minutes(15, 120),
 		Cases: func(tier string, seed int64) []fw.Case {
 			l := mkCases(nil, "searches", 64, seed, pick(tier, 40, 400))
+			l = mkCases(l, "drawnarrival", 8, seed, pick(tier, 60, 2000))
 			return mkCases(l, "movelist", 8, seed, pick(tier, 300, 20000))
 		},
 		Floors: func(string) map[string]int64 {
-			return map[string]int64{"searches": 1500, "root_mate_for_ge3": 20, "root_mate_against_ge2": 5, "draw_inside_tree": 100, "stalemate_inside_tree": 50, "selective_pruned": 100, "drawn_root": 5, "moveless_root": 10, "movelists": 2000}
+			return map[string]int64{"drawn_arrival_searches": 200, "searches": 1500, "root_mate_for_ge3": 20, "root_mate_against_ge2": 5, "draw_inside_tree": 100, "stalemate_inside_tree": 50, "selective_pruned": 100, "drawn_root": 5, "moveless_root": 10, "movelists": 2000}
 		},
 		Run: runC03,
 	})
